@@ -217,7 +217,12 @@ def expected_max(bits, cols, rows, mode):
 MGE_FLAG = [1]
 
 
+MGE_TITLE = [None]        # when set: the picture's title field (text the decoder only echoes; any byte values)
+
+
 def mge_header(palette, rgb=True, compressed=False, title=b"TITLE", cycles=0, cycpal=0):
+    if MGE_TITLE[0] is not None:
+        title = MGE_TITLE[0]
     t = title[:29] + b"\0" * (30 - len(title[:29]))
     nz = MGE_FLAG[0]
     return bytes([0]) + bytes(palette) + bytes([0 if rgb else nz]) + bytes([0 if compressed else nz]) + t + bytes([cycles, cycpal])
